@@ -155,7 +155,7 @@ for name, nc, zs in (('2classes', 2, ''), ('3classes_zero_slot', 3, ', last clas
        bound=L2B % (nc - 1, zs), assumes=L2_ASSUMES, cover=False)
     ob(f'llfree::l2_tree_stats_{name}', ['C14', 'C04'], ['llfree::LLFree::tree_stats', 'trees::Trees::stats', 'local::Locals::stats'], kind='config-bounded',
        bound=L2B % (nc - 1, zs) + '; states where no reservation holds free frames', assumes=L2_ASSUMES, cover=False)
-    ob(f'llfree::l2_tree_stats_reserved_{name}', ['C14', 'C04'], ['llfree::LLFree::tree_stats', 'trees::Trees::stats', 'local::Locals::stats'], kind='config-bounded',
+    ob(f'llfree::l2_tree_stats_reserved_{name}', ['C14'], ['llfree::LLFree::tree_stats', 'trees::Trees::stats', 'local::Locals::stats'], kind='config-bounded',
        bound=L2B % (nc - 1, zs) + '; states where a reservation holds free frames', assumes=L2_ASSUMES, cover=False)
 ob('llfree::l2_validate_2classes', ['C04'], ['llfree::LLFree::validate'], kind='config-bounded', bound=L2B % (1, '') + '; no tree offline', assumes=L2_ASSUMES, cover=False, timeout=1200, tier='thorough')
 ob('llfree::l2_change_tree_2classes', ['C15', 'C09'], ['llfree::LLFree::change_tree', 'trees::Trees::change', 'trees::Trees::change_at', 'trees::Trees::search'], kind='config-bounded',
@@ -232,3 +232,23 @@ for n in (1, 2, 4):
         ob(f'atomic::rg_cas_all_{kind}_n{n}', ['C01', 'C03', 'C21'], ['atomic::AtomicSlice::compare_exchange_all'], tier='quick' if n in (1, 4) else 'thorough',
            bound=f'table of 4 entries with any contents, block of {n} whole huge frame(s), any entries already owned, an environment that may overwrite any entry this thread does not own before every access',
            assumes=['rely: other threads never change an entry this thread owns as a whole huge frame (they meet the same guarantee)'], timeout=900, cover=False)
+
+# C05 crash points inside one call (real bitfield bodies), construction establishes I
+CRASH = [('put', [(0, 1), (3, 1), (6, 1), (7, 1), (8, 1), (9, 1), (10, 2)]), ('get_at', [(0, 1), (4, 1), (7, 1), (8, 1), (9, 1), (10, 2)]), ('get', [(0, 1), (7, 1), (9, 1)])]
+CRASH_QUICK = {('put', 0), ('put', 9), ('get_at', 0), ('get_at', 9)}
+for op, lst in CRASH:
+    for o, h in lst:
+        ob(f'lower::c05_crash_{op}_o{o}_h{h}', ['C05'], [f'lower::Lower::{op if op != "get_at" else "get_at"}', 'bitfield::Bitfield::toggle', 'bitfield::Bitfield::set_first_zeros'],
+           tier='quick' if (op, o) in CRASH_QUICK else 'thorough', kind='config-bounded',
+           bound=f'1 tree, all states under wf_lower, order {o}, huge frame {h}; crash after ANY number K of the call\'s atomic writes (K symbolic); universally quantified witness frame outside the block',
+           assumes=['atomic::Atom::try_update sequential contract (l1a_atom_*)', 'persistence order = program order of atomic writes (no cache-line model)'], timeout=1500, cover=False)
+ob('llfree::l2_new_establishes_invariant', ['C05', 'C06', 'C04', 'C09'], ['llfree::LLFree::new', 'trees::Trees::new', 'local::Locals::new'], kind='config-bounded',
+   bound='every frame count with two trees (last one partial or whole), FreeAll / AllocAll / Recover, any lower free counts; volatile buffers zeroed',
+   assumes=['lower::Lower::new by contract (c06_*, c05_recover_*)', 'lower::Lower::stats_at/stats by contract (c04_lower_*)'], cover=False)
+# C10 / C11 completeness, monolithic over the configuration
+ob('llfree::c10_drained_base_order_2c', ['C10'], ['llfree::LLFree::get', 'llfree::LLFree::search_and_reserve', 'llfree::LLFree::steal_global', 'llfree::LLFree::reserve_or_steal', 'trees::Trees::search_best'],
+   tier='thorough', kind='config-bounded', bound=L2B % (1, '') + '; drained (no slot holds a tree), never-Invalid policy, base order, any class / slot choice', assumes=L2_ASSUMES[:2], timeout=3000, cover=False)
+ob('llfree::c10_drained_targeted_2c', ['C10'], ['llfree::LLFree::get', 'llfree::LLFree::get_at', 'llfree::LLFree::steal_global'],
+   tier='thorough', kind='config-bounded', bound=L2B % (1, '') + '; drained, never-Invalid policy, every order and target block', assumes=L2_ASSUMES[:2], timeout=3000, cover=False)
+ob('llfree::c11_single_slot_base_order', ['C11'], ['llfree::LLFree::get', 'llfree::LLFree::get_local', 'llfree::LLFree::search_and_reserve', 'trees::Trees::sync'],
+   tier='thorough', kind='config-bounded', bound='2 trees, ONE class with ONE slot (any slot / tree words under I), base order, nothing offline', assumes=L2_ASSUMES[:2], timeout=3000, cover=False)
